@@ -799,12 +799,23 @@ class World(object):
         R = np.asarray(R, dtype=object)
         return tuple(R.shape), R.ravel().tolist()
 
-    def exact_of_slot(self, i):
+    def exact_of_slot(self, i, readback=False):
         o = self.obj(i)
         sh, kind, flat = codes_of(o)
         if kind not in 'iuO' or not all(isinstance(c, int) for c in flat):
             return None
-        return sh, [Q.unscale(c, o.n_frac) for c in flat]
+        vals = [Q.unscale(c, o.n_frac) for c in flat]
+        if readback:
+            # arithmetic by the repr method works on get_val(); an operand whose read-back value is
+            # not its exact value (stale integer value type flooring it: C16's subject) would make
+            # the library compute with other numbers than the model
+            try:
+                got = np.asarray(o.get_val(), dtype=float).ravel().tolist()
+                if len(got) != len(vals) or any(Fraction(g) != v for g, v in zip(got, vals)):
+                    return None
+            except Exception:
+                return None
+        return sh, vals
 
     def op_arith(self, st):
         op = st.op
@@ -855,14 +866,32 @@ class World(object):
         self.plan_register(st, reg)
         exact = None
         if f in ('add', 'sub', 'mul') and not ao.scaled:
-            av = self.exact_of_slot(a)
+            av = self.exact_of_slot(a, readback=True)
             if b is not None:
-                bv = self.exact_of_slot(b) if not bo.scaled else None
+                bv = self.exact_of_slot(b, readback=True) if not bo.scaled else None
             else:
                 bv = V.exact(bd['val'])
-            if av is not None and bv is not None and b is not None:
-                x, y = (av, bv)
+            const_inexact = False
+            if av is not None and bv is not None and b is None:
+                # constant operand: the library first turns it into a fixed-point constant, by
+                # config.op_input_size: 'same' -> quantized into a's own format under a's modes
+                # (Fxp(c, like=a)); 'best' (and the function / NumPy routes) -> inferred format, which
+                # holds a modest dyadic constant exactly
+                mode = ao.config.op_input_size if route in ('op', 'rop') else 'best'
+                ok = all(abs(v.numerator).bit_length() <= 48 and v.denominator.bit_length() <= 30
+                         for v in bv[1])
+                if mode == 'same' and ao.n_word <= 52:
+                    fmt = (bool(ao.signed), ao.n_word, ao.n_frac)
+                    q = [Q.quant(v, fmt, ao.config.rounding, ao.config.overflow)[0] for v in bv[1]]
+                    qv = [Q.unscale(c, ao.n_frac) for c in q]
+                    const_inexact = any(x != y for x, y in zip(qv, bv[1]))
+                    bv = (bv[0], qv)
+                elif not (mode == 'best' and ok) or self.template is not None or self.cfg_template is not None:
+                    bv = None     # (under a global template Fxp(c) is shaped by the template instead)
+            if av is not None and bv is not None:
+                x, y = (bv, av) if (route == 'rop' and b is None) else (av, bv)
                 exact = self._arith_exact(f, x, y)
+            st.extra['const_inexact'] = const_inexact
         prop = [a] + ([b] if b is not None else [])
         st.store = Store('dest' if st.dest is not None else 'new', vals=exact, route='arith',
                          prop=prop, judge_cb=(st.dest is not None), arith=f)
